@@ -79,6 +79,11 @@ Inductive stmt :=
                                                (* for idx, it in enumerate(star[from:], start): body *)
 | SForRange (n : expr) (body : stmt)           (* for _ in range(n): body *)
 | SDelegate (f star : string)                  (* async for x in f(star): yield x   -- another translated generator of the library *)
+| SWithStar (its star : string) (body : stmt)  (* async with ScopedIter(star) as its: body   -- star: a tuple of iterables; iterating
+                                                  the tuple itself has no effects, only its elements are sources *)
+| SForStar (it its : string) (body : stmt)     (* async for it in its: body   -- its: a tuple of iterables, it: the iterable of the turn *)
+| SAppend (x : string) (e : expr)              (* x.append(e) *)
+| SForList (x l : string) (body : stmt)        (* for x in l: body   -- l: a list the body does not change *)
 | SBreak
 | SReturn (e : option expr)
 | SUnsupported (what : string).                (* the translator met something outside the fragment *)
@@ -221,6 +226,26 @@ Fixpoint for_range (n : nat) (body : env -> M (env * sig)) (en : env) : M (env *
            | _ => ret rr
            end
   end.
+Fixpoint for_star (l : list nat) (it : string) (body : env -> M (env * sig)) (en : env) : M (env * sig) :=
+  match l with
+  | [] => ret (en, Normal)
+  | i :: r => rr <- body (set_it en it i) ;;
+              match snd rr with
+              | Normal => for_star r it body (fst rr)
+              | Brk => ret (fst rr, Normal)
+              | _ => ret rr
+              end
+  end.
+Fixpoint for_list (l : list val) (x : string) (body : env -> M (env * sig)) (en : env) : M (env * sig) :=
+  match l with
+  | [] => ret (en, Normal)
+  | v :: r => rr <- body (set_var en x v) ;;
+              match snd rr with
+              | Normal => for_list r x body (fst rr)
+              | Brk => ret (fst rr, Normal)
+              | _ => ret rr
+              end
+  end.
 Fixpoint anext_row (l : list nat) (acc : list val) : M (option (list val)) :=
   match l with
   | [] => ret (Some acc)
@@ -360,6 +385,25 @@ Fixpoint exec (s : stmt) (en : env) (yield : val -> M unit) : M (env * sig) :=
       den <- need (lookup f (e_lib en)) ;;
       ss <- need (lookup star (e_star en)) ;;
       den ss yield ;;; ret (en, Normal)
+  | SWithStar its star body =>
+      ss <- need (lookup star (e_star en)) ;;
+      exec body (set_star en its ss) yield
+  | SForStar it its body =>
+      ss <- need (lookup its (e_star en)) ;;
+      for_star ss it (fun e => exec body e yield) en
+  | SAppend x e =>
+      o0 <- need (lookup x (e_vars en)) ;; l <- need o0 ;;
+      v <- eval en e ;;
+      match l with
+      | VList xs => ret (set_var en x (VList (xs ++ [v])), Normal)
+      | _ => raise XAttributeError
+      end
+  | SForList x l body =>
+      o0 <- need (lookup l (e_vars en)) ;; v <- need o0 ;;
+      match v with
+      | VList xs => for_list xs x (fun e => exec body e yield) en
+      | _ => raise XTypeError
+      end
   | SBreak => ret (en, Brk)
   | SReturn None => ret (en, Ret VNone)
   | SReturn (Some e) => v <- eval en e ;; ret (en, Ret v)
@@ -382,6 +426,6 @@ Fixpoint supported (s : stmt) : bool :=
   | SSeq a b | SIf _ a b | SFor _ _ a b | SForEnum _ _ _ _ a b | STryStop a b | STryFinally a b | SIfAnextGot _ a b => supported a && supported b
   | SWhileTrue a | SForIters _ _ _ _ _ a | SForRange _ a => supported a
   | SForZipBorrowed _ _ _ _ a | SForZipOwned _ _ a => supported a
-  | SWith _ _ a | SAnextOr _ _ a => supported a
+  | SWith _ _ a | SAnextOr _ _ a | SWithStar _ _ a | SForStar _ _ a | SForList _ _ a => supported a
   | _ => true
   end.
